@@ -1,4 +1,4 @@
-import TunnoxModel.Proofs.C06
+import TunnoxModel.Proofs.C06Valid
 /-!
 # C06 — a connection code creates at most one mapping, and only while valid
 
@@ -90,14 +90,28 @@ theorem C06_at_most_one (p : Params) (preC preN : Nat) (ths : List Thread) (evs 
   simp only [holdsCore, Bool.and_eq_true, decide_eq_true_eq] at h
   exact h.1.1.1.2
 
-/-- **"only while valid", per step (partial).**  The only way an activation gets past the read is the translated
-validity predicate on the record as stored at that moment: present, not revoked, not used, period not over —
-whatever the store and the thread look like.  (Full statement: `holdsValid evs (obs (run … evs)) = true` for all
-`evs`, i.e. a successful activation has a step at which the code was generated and not expired; it is evaluated
-on every model run and every implementation observation by the driver, and follows from this lemma plus the
-fact, proved in `C06_core`'s invariant, that `checked` is the only way to `created`; the positional
-bookkeeping over event prefixes is not mechanised.) -/
-theorem C06_valid_partial (p : Params) (st : Store) (i : Nat) (t : Thread)
+/-- **C06 ("only while valid"), all schedules and histories.**  For every event list — the storage phases of any
+number of activations and revocations interleaved in any way with the generation of the code and the end of its
+activation period — for a successful activation, step 1 of the call (its read of the record) and step 2 (its
+re-decision: `connCode.Activate` on the local copy with the current clock, before anything is created; step 0 is
+the claim) both lie at instants before which the code was generated and its period not over.  Hence an activation
+that lies before the generation or after the end of the period, or whose read or re-decision falls after the end,
+never creates a mapping.  (Revoked / already used at those instants: `C06_decision_instant`, and `C06_core`.) -/
+theorem C06_valid (p : Params) (preC preN : Nat) (ths : List Thread) (evs : List Ev)
+    (hf : freshThreads ths = true) :
+    holdsValid evs (obs (run .repaired p (init preC preN ths) evs)) = true :=
+  holdsValid_run preC preN ths evs hf
+
+/-- **C06, every clause of the predicate the runner applies to the implementation** (core ∧ valid). -/
+theorem C06_main (p : Params) (preC preN : Nat) (ths : List Thread) (evs : List Ev)
+    (hf : freshThreads ths = true) :
+    holds p (ths.map callOf) evs (obs (run .repaired p (init preC preN ths) evs)) = true := by
+  simp only [holds, Bool.and_eq_true]
+  exact ⟨C06_core p preC preN ths evs hf, C06_valid p preC preN ths evs hf⟩
+
+/-- The read: the only way an activation gets past it is the translated validity predicate on the record as
+stored at that moment — present, not revoked, not used, period not over — whatever the store looks like. -/
+theorem C06_read_gate (p : Params) (st : Store) (i : Nat) (t : Thread)
     (hk : t.kind = .activate) (hpc : t.pc = .claimed)
     (h : (tstep .repaired p st i t).2.pc = .checked) :
     st.present = true ∧ st.code.IsRevoked = false ∧ st.code.IsActivated = false ∧ ¬ (st.code.ActivationExpiresAt < st.now) := by
@@ -112,16 +126,42 @@ theorem C06_valid_partial (p : Params) (st : Store) (i : Nat) (t : Thread)
         have := (valid_iff st.now st.code t.listener).mp (by simpa using hv)
         exact ⟨by simpa using hp, this⟩
 
-/-- … and the decision is taken again, on the local copy with the current clock, before anything is created. -/
-theorem C06_recheck_partial (p : Params) (st : Store) (i : Nat) (t : Thread) (hpc : t.pc = .checked)
-    (h : (tstep .repaired p st i t).2.pc = .decided) : ¬ (t.loc.ActivationExpiresAt < st.now) := by
-  cases hk : t.kind <;> simp only [tstep, hk, hpc] at h <;>
-  · split at h
-    · simp [fin] at h
+/-- **The instant at which validity is judged: the re-decision.**  In every reachable configuration (any events
+so far), when an activation passes its re-decision the record *as stored at that instant* is not revoked, not
+used and not expired: the claim guarantees that nobody has written the record since the activation read it
+(`TInv.locEq`), so the local copy the code re-checks is the stored record. -/
+theorem C06_decision_instant (p : Params) (preC preN : Nat) (ths : List Thread) (evs : List Ev)
+    (hf : freshThreads ths = true) (i : Nat) (t : Thread)
+    (hi : (run .repaired p (init preC preN ths) evs).ths[i]? = some t) (hpc : t.pc = .checked)
+    (h : (tstep .repaired p (run .repaired p (init preC preN ths) evs).st i t).2.pc = .decided) :
+    let st := (run .repaired p (init preC preN ths) evs).st
+    st.code.IsRevoked = false ∧ st.code.IsActivated = false ∧ ¬ (st.code.ActivationExpiresAt < st.now) := by
+  have hinv := inv_run (p := p) evs (inv_init preC preN ths hf)
+  have hl := (hinv.t i t hi).locEq hpc
+  intro st
+  have : TunnelConnectionCode.CanBeActivatedBy st.now t.loc t.listener = true := by
+    cases hk : t.kind <;> simp only [tstep, hk, hpc] at h <;>
     · split at h
       · simp [fin] at h
-      · rename_i hv
-        exact ((valid_iff st.now t.loc t.listener).mp (by simpa using hv)).2.2
+      · split at h
+        · simp [fin] at h
+        · rename_i hv; simpa using hv
+  rw [hl] at this
+  exact (valid_iff st.now st.code t.listener).mp this
+
+/-- … and a mapping is created only by the step that follows a passed re-decision: an activation whose
+re-decision saw an expired, revoked or used record ends there (`C06_decision_instant` is the only way to
+`decided`) and never reaches the one step that adds a mapping. -/
+theorem C06_create_only_after_decision (p : Params) (st : Store) (i : Nat) (t : Thread)
+    (h : st.maps.length < (tstep .repaired p st i t).1.maps.length) : t.pc = .decided := by
+  have hf := updateRec_fields st t
+  cases hpc : t.pc <;> try rfl
+  all_goals
+    exfalso
+    cases hk : t.kind <;> simp only [tstep, hk, hpc] at h <;>
+      (try unfold claimStep at h) <;> (try unfold getStepA at h) <;> (try unfold getStepR at h) <;>
+      (repeat' split at h) <;> simp_all <;>
+      exact absurd h (Nat.not_lt.mpr (List.length_filter_le _ _))
 
 /-- `GenerateUnique` never returns a code that already exists, whatever candidates the random source proposes. -/
 theorem C06_generateUnique (ex : Nat → Bool) (fuel : Nat) (cands : List Nat) (c : Nat)
@@ -156,8 +196,21 @@ example : (obs (run .repaired pW (init 0 0 thsW) evsW)).maps = [(101, 1, 500, 1)
 /-! ## Non-vacuity -/
 
 example : freshThreads thsW = true := by decide
-/-- every clause of `holds` is exercised: all calls return, one succeeds -/
+/-- every clause of `holds` is exercised: all calls return, one succeeds (its read is event 1, its re-decision event 3) -/
 example : holds pW (thsW.map callOf) evsW (obs (run .repaired pW (init 0 0 thsW) evsW)) = true := by decide
+example : stepValid evsW 0 1 3 = true ∧ stepValid evsW 0 2 4 = true := by decide
+/-- `holdsValid` is not vacuous: it rejects a success reported for a call that lies entirely after the end of the period -/
+example : holdsValid ([.create, .expire] ++ drain 1) { results := [.ok (101, 1, 500, 1) true], maps := [(101, 1, 500, 1)], orec := none } = false := by decide
+/-- … and one whose re-decision falls after the end of the period (read at event 2, period over at event 3) -/
+example : holdsValid [.create, .th 0, .th 0, .expire, .th 0, .th 0, .th 0, .th 0] { results := [.ok (101, 1, 500, 1) true], maps := [], orec := none } = false := by decide
+/-- the model in that schedule: the re-decision refuses, nothing is created -/
+example : (obs (run .repaired pW (init 0 0 [{ kind := .activate, listener := 101, laddr := 1 }])
+    [.create, .th 0, .th 0, .expire, .th 0, .th 0, .th 0, .th 0])).results = [.err "internal"] := by decide
+/-- as found, histories in which the calls do not overlap are safe (two examples; the general statement
+`C06_seq_partial` is not mechanised, see the note at the end) -/
+example : holdsCore pW (thsW.map callOf) (obs (run .asFound pW (init 0 0 thsW) (.create :: drain 2))) = true := by decide
+example : holdsCore pW ([{ kind := .revoke, listener := 0, laddr := 0 }, { kind := .activate, listener := 101, laddr := 1 }].map callOf)
+    (obs (run .asFound pW (init 0 0 [{ kind := .revoke, listener := 0, laddr := 0 }, { kind := .activate, listener := 101, laddr := 1 }]) (.create :: drain 2))) = true := by decide
 /-- expiry before the call: nothing is created -/
 example : (obs (run .repaired pW (init 0 0 thsW) ([.create, .expire] ++ drain 2))).maps = [] := by decide
 /-- a failed write-back (second write) burns the code but leaves no mapping -/
@@ -166,5 +219,13 @@ example : (obs (run .repaired pW (init 0 0 [{ kind := .activate, listener := 101
 /-- revocation first: the activation is refused -/
 example : (obs (run .repaired pW (init 0 0 [{ kind := .revoke, listener := 0, laddr := 0 }, { kind := .activate, listener := 101, laddr := 1 }])
     (.create :: drain 2))).results = [.rok, .err "forbidden"] := by decide
+
+/-!
+Not mechanised: `C06_seq_partial` (as found, schedules in which calls do not overlap satisfy `holdsCore`).  The
+invariant of `C06_core` rests on the claim (`TInv.claim`: whoever is between read and write-back holds it);
+without the claim, mutual exclusion would have to come from the shape of the schedule, which needs a second set
+of step lemmas for `tstep .asFound` (no claim/release phases, calls end in `done`).  The as-found code no longer
+exists in the tree; its failure is `C06_witness`, its sequential safety is shown on the examples above.
+-/
 
 end Tunnox.C06
